@@ -48,8 +48,9 @@ META = {
             'on every case; any disagreement is a broken obligation); real arithmetic as stand-in for doubles. Read back '
             'from the real objects, not verified: the closures shear_entrainment (alpha_s), cp_model (Ep), the void '
             'fraction / buoyancy (Xi, Fb) and the dbm particle properties (us, A, beta, Cs, rho_p, beta_T) — physical '
-            'laws the conservation identities do not depend on. seawater.density and profile.get_values are used by the '
-            'oracle as given (C13, C07). The momentum, age and position slots are transcribed and compared but the property '
+            'laws the conservation identities do not depend on. seawater.density and profile.get_values for T, S, P are used by the '
+            'oracle as given (C13, C07); ambient CONCENTRATIONS are interpolated by the harness itself, by name, from the raw '
+            'table it handed to ambient.Profile (columns stored in another order than requested, supersets, missing names). The momentum, age and position slots are transcribed and compared but the property '
             'makes no claim about them. STATED SCOPE LIMIT: all soluble particle classes of a scenario share one composition '
             'list — a documented precondition of tamoc ("All particles have the same composition", dispersed_phases.py '
             'l.1034; derivs_inner indexes beta[j], Cs[j] of every soluble particle by the position j in the common list). '
@@ -276,7 +277,9 @@ def oracle(sc, z, y_i, y_o, p):
     a plume that does not exist (Q_i <= 0, Q_o >= 0) holds u = b = 0 and the ambient s, T, c, rho)"""
     from tamoc import seawater
     Ta, Sa, P = [float(v) for v in sc.profile.get_values(float(z), ['temperature', 'salinity', 'pressure'])]
-    ca = vec(sc.profile.get_values(float(z), list(sc.chem_names))) if len(sc.chem_names) else []
+    # ambient concentrations BY NAME from the raw table the harness handed to ambient.Profile (own interpolation):
+    # independent of the profile object's name -> column bookkeeping
+    ca = [S.table_value(sc.table, z, str(X)) for X in sc.chem_names]
     rho_a = float(seawater.density(Ta, Sa, P))
     rc = float(p.rho_r) * float(seawater.cp())
     nchems = len(sc.chem_names)
@@ -300,7 +303,7 @@ def oracle(sc, z, y_i, y_o, p):
     # one its own label list `chem_names` gives to X
     names = tracked_names(sc)
     labels = [str(x) for x in sc.chem_names]
-    ca_named = {X: float(sc.profile.get_values(float(z), [X])[0]) for X in names}
+    ca_named = {X: S.table_value(sc.table, z, X) for X in names}
     ci_named = {X: inner['c'][labels.index(X)] for X in names if X in labels and labels.index(X) < len(inner['c'])}
     co_named = {X: outer['c'][labels.index(X)] for X in names if X in labels and labels.index(X) < len(outer['c'])}
     return {'Ta': Ta, 'Sa': Sa, 'P': P, 'ca': ca, 'rho_a': rho_a, 'inner': inner, 'outer': outer,
@@ -704,6 +707,8 @@ def run(ctx, lean_ok):
     nsim_ok = 0
     nclosure_nan = 0
     nsol_states = 0
+    nbg2 = 0
+    nperm = 0
     nrelabel = 0
     done = {k: 0 for k in KINDS}
     nchem_done = {'nchems==0': 0, 'nchems==1': 0, 'nchems>=2': 0}
@@ -793,6 +798,17 @@ def run(ctx, lean_ok):
                 if relabel_sensitive(sc, rb, res['oracle']):
                     nrelabel += 1
                     ctx.count('relabel-sensitive state (unsorted composition >= 2, distinct ambient concentrations and solubilities)')
+            stored = [x for x in sc.spec['profile'].get('background', {}) if x in res['oracle']['labels']]
+            asked = [x for x in res['oracle']['labels'] if x in stored]
+            if len(res['oracle']['labels']) >= 2 and sc.spec['profile'].get('background'):
+                nbg2 += 1
+                if stored != asked:
+                    nperm += 1
+                    ctx.count('profile stores the tracked compounds in another order than the plumes request them')
+                if len(stored) < len(res['oracle']['labels']):
+                    ctx.count('profile lacks a tracked compound')
+                if len(sc.spec['profile']['background']) > len(stored):
+                    ctx.count('profile holds compounds no particle contains')
             sa = stripping_active(sc, rb, res['oracle'])
             res['strip'] = sa
             if sa and not kind.startswith('inner-absent'):
@@ -828,6 +844,9 @@ def run(ctx, lean_ok):
                'alphabetically sorted, pairwise distinct ambient concentrations of the tracked compounds and pairwise distinct '
                'solubilities, so that a relabelling of the compounds cannot cancel (%d of %d)' % (nrelabel, nsol_states),
                nsol_states > 0 and 2 * nrelabel >= nsol_states, '%d of %d' % (nrelabel, nsol_states))
+    ctx.oblige('floor: in >= 60%% of the completed state pairs with >= 2 tracked compounds and ambient background the profile stores '
+               'those compounds in another order than the plumes request them (%d of %d)' % (nperm, nbg2),
+               nbg2 > 0 and nperm >= 0.6 * nbg2, '%d of %d' % (nperm, nbg2))
     ntot0 = len(records)
     needc = {'nchems==1': 0.05, 'nchems==0': 0.03, 'nchems>=2': 0.30}
     lowc = {k: (nchem_done[k], int(math.ceil(f * ntot0))) for k, f in needc.items() if nchem_done[k] < f * ntot0}
